@@ -21,7 +21,26 @@ been written):
 ``to_npy_stack(dir, x, axis)`` followed by ``from_npy_stack(dir)`` must give the same values and dtype
 and the same chunks along ``axis`` (run-private temporary directory, removed afterwards).
 
+Parameter audit (operation x parameter x value class, all with counters and floors):
+* targets that are ``dask.delayed`` objects (``delayed(t)``, ``delayed(t, traverse=False)``, the result of a delayed call), alone,
+  mixed with plain targets in one call and shared by two sources;
+* ``load_stored`` given explicitly: True / False with every compute / return_stored combination.  With compute=True,
+  return_stored=True, load_stored=True the returned arrays must compute to the stored data (label
+  ``store:return_stored&load_stored=True&compute=True:returned-arrays``, one label whatever the symptom); with compute=False,
+  return_stored=True, load_stored=False the blocks of the returned arrays, computed one by one, must BE the targets
+  (``...&load_stored=False&compute=False:<regions>:block-is-not-the-target``) and the writes must have happened;
+* ``optimize_graph=False`` as a scheduler keyword next to scheduler= / num_workers=;
+* sources that are not plain from_array collections: a blockwise producer (map_blocks, fusable with the store task), a rechunk,
+  a lazily sliced larger array, and ``same-data-other-chunks``: one call storing the same data in two chunkings (the second
+  source is a rechunk of the first) into targets of their own;
+* STATE: the same call a second time on the same sources and the reset targets (``again``) must write everything again;
+* npy stacks: negative ``axis`` (label ``npy_stack:negative-axis:chunks-along-axis``), a directory that exists already, a directory
+  that holds an older stack of other data in another chunking (stale files), derived sources.
+* to_zarr / to_hdf5 / to_tiledb are NOT exercised: zarr, h5py and tiledb are not importable in this environment.
+
 Calibration
+* a ValueTokenTarget is never wrapped in dask.delayed: delayed() names a constant after its token, two equal-content targets
+  would be one graph constant (the caller's naming, not store's).
 * zero-size chunks are legitimately never written (``x.size != 0`` guard in load_store_chunk): "exactly
   once" is evaluated per element, so empty regions are vacuous.
 * ``compute=False`` returns dask Arrays in this version (the docstring says Delayed); the statement only
@@ -50,7 +69,9 @@ RULE = ("cases = store(sources, targets, regions, lock, compute, return_stored, 
         "(lengths 0-7, 10 dtypes, random irregular chunks), targets equal to or larger than the region, region slices "
         "with steps/None ends/negative indices, lock in {True, False, threading.Lock, SerializableLock}, scheduler "
         "sync|threads given as keyword, through dask.config or left to the default; and to_npy_stack/from_npy_stack round "
-        "trips (axis, dtype, chunks, mmap_mode). non-trivial = some source axis has >= 2 chunks; distinct = distinct "
+        "trips (axis incl. negative, dtype, chunks, mmap_mode, fresh/existing/occupied directory). Audit extras: Delayed targets, "
+        "explicit load_stored, optimize_graph=False, derived sources (map_blocks/rechunk/sliced/same data rechunked), a second "
+        "store of the same call. non-trivial = some source axis has >= 2 chunks; distinct = distinct "
         "case description.")
 ASSUMPTIONS = ["the MonitoredTarget bookkeeping lock and logical clock are correct", "NumPy assignment semantics define a write"]
 BUDGET = {"quick": 90, "thorough": 560}
@@ -64,6 +85,12 @@ FLOORS = {"quick": {"evaluations": 1100, "distinct_nontrivial": 700,
                                     "npy_roundtrips": 1000, "return_stored_checked": 1800, "deferred_stores": 2000,
                                     "targets_written_by_several_threads": 2500},
                        "sets": {"store_config": 150}, "max_skipped_fraction": 0.15}}
+# parameter audit families: ~45 % of the smallest count of the five quick seeds; thorough = quick floor x 6 (stream ratio 6.4)
+_AUDIT = {"delayed_targets": 210, "delayed_target_histories_checked": 215, "load_stored_explicit": 280,
+          "load_stored_false_blocks_checked": 55, "derived_sources": 590, "optimize_graph_false": 135, "stored_again": 60,
+          "calls_with_differently_chunked_sources": 175, "npy_negative_axis": 36, "npy_existing_dir": 30, "npy_overwrites": 64}
+FLOORS["quick"]["counters"].update(_AUDIT)
+FLOORS["thorough"]["counters"].update({k: 6 * v for k, v in _AUDIT.items()})
 EXHAUSTIVE_SPACE = None
 CLAIM = ("Every generated da.store call ran on the real dask with monitored targets: each region element was written exactly "
          "once with the source value, nothing else was touched, locked stores never overlapped on a target, deferred stores "
@@ -169,11 +196,20 @@ def cases(tier, seed):
     rng = random.Random(seed * 4099 + 29)
     n = 2500 if tier == "quick" else 16000
     for i in range(n):
+        # parameter-audit extras are drawn from a stream of their own so that the base stream stays what it was
+        xr = random.Random(seed * 7919 + 31 * i + 5)
         if rng.random() < 0.15:
             shape = A.rand_shape(rng, maxnd=3, maxlen=6, minnd=1)
-            yield {"k": "npy", "shape": list(shape), "dtype": rng.choice(A.DTYPES), "c": [list(c) for c in A.rand_chunks(rng, shape)],
-                   "axis": rng.randrange(len(shape)), "mmap": rng.choice(("r", "r", None)), "seed": rng.randrange(2 ** 31),
-                   "sched": rng.choice(("sync", "threads"))}
+            c = {"k": "npy", "shape": list(shape), "dtype": rng.choice(A.DTYPES), "c": [list(c) for c in A.rand_chunks(rng, shape)],
+                 "axis": rng.randrange(len(shape)), "mmap": rng.choice(("r", "r", None)), "seed": rng.randrange(2 ** 31),
+                 "sched": rng.choice(("sync", "threads"))}
+            c["axis_neg"] = xr.random() < 0.25                     # the same axis counted from the end
+            c["predir"] = xr.choice(("new", "new", "exists", "overwrite", "overwrite"))   # state of the directory before the write
+            if c["predir"] == "overwrite":
+                c["c_before"] = [list(q) for q in A.rand_chunks(xr, shape)]
+                c["seed_before"] = xr.randrange(2 ** 31)
+            c["derive"] = xr.choice(("from_array", "from_array", "map_blocks", "rechunk"))
+            yield c
             continue
         nsrc = rng.choice((1, 1, 1, 2, 2, 3))
         variant = "plain"
@@ -213,6 +249,19 @@ def cases(tier, seed):
                 s["same_as_first"] = True
             for s in srcs:
                 s["value_token"] = True
+        if variant == "plain" and nsrc >= 2 and xr.random() < 0.35:
+            # the same data and shape in another chunking (a rechunk of the first source) into a target of its own
+            variant = "same-data-other-chunks"
+            for s in srcs[1:]:
+                s["shape"], s["dtype"], s["seed"] = srcs[0]["shape"], srcs[0]["dtype"], srcs[0]["seed"]
+                s["c"] = [list(q) for q in A.rand_chunks(xr, tuple(s["shape"]))]
+                s["rechunk_of_first"] = True
+                if s["rk"] == "none":
+                    s["region"], s["tshape"] = None, list(s["shape"])
+                elif s["rk"] == "exact":
+                    s["region"], s["tshape"] = [[0, nn, None] for nn in s["shape"]], list(s["shape"])
+                else:
+                    s["region"], s["tshape"] = _region(xr, s["shape"], "inside" if s["rk"] == "inside" else s["rk"])
         if variant == "two-into-one-target":
             # one target, the sources are written side by side along a new leading split of axis 0
             srcs = srcs[:2]
@@ -234,9 +283,31 @@ def cases(tier, seed):
                 srcs[1]["shared_target"] = True
         how = rng.choice(("kwarg", "kwarg", "kwarg", "config", "default"))
         sched = rng.choice(("sync", "threads", "threads", "threads")) if how != "default" else "threads"
-        yield {"k": "store", "variant": variant, "srcs": srcs, "lock": rng.choice(("true", "true", "false", "false", "threading", "serializable")),
-               "compute": rng.random() < 0.65, "return_stored": rng.random() < 0.3, "sched": sched, "sched_how": how,
-               "single_form": rng.random() < 0.5, "regions_form": rng.choice(("list", "tuple-if-one"))}
+        case = {"k": "store", "variant": variant, "srcs": srcs, "lock": rng.choice(("true", "true", "false", "false", "threading", "serializable")),
+                "compute": rng.random() < 0.65, "return_stored": rng.random() < 0.3, "sched": sched, "sched_how": how,
+                "single_form": rng.random() < 0.5, "regions_form": rng.choice(("list", "tuple-if-one"))}
+        # ---- parameter audit: Delayed targets, load_stored, optimize_graph=, derived sources, a second store
+        if variant != "same-source-equal-targets" and xr.random() < 0.22:
+            # (value-tokenized targets excluded: dask.delayed names an object after its token, two equal-content
+            #  targets would be ONE delayed constant)
+            td = xr.choice(("obj", "obj", "notraverse", "call"))
+            for s in srcs:
+                if xr.random() < 0.8:
+                    s["tdelayed"] = td
+        if xr.random() < 0.3:
+            case["load_stored"] = xr.choice((True, True, False))
+            if case["load_stored"] and xr.random() < 0.5:
+                case["return_stored"] = True
+            if case["load_stored"] is False and xr.random() < 0.7:
+                case["return_stored"], case["compute"] = True, False
+        if xr.random() < 0.15:
+            case["optimize_graph"] = False
+        for s in srcs:
+            if not s.get("same_as_first") and not s.get("rechunk_of_first"):
+                s["derive"] = xr.choice(("from_array", "from_array", "from_array", "map_blocks", "rechunk", "sliced"))
+        if case["compute"] and xr.random() < 0.12:
+            case["again"] = True
+        yield case
 
 
 # ---------------------------------------------------------------------------------------------
@@ -265,6 +336,26 @@ def _feat(case):
     return "no-region" if all(s["region"] is None for s in case["srcs"]) else "regions"
 
 
+def _derive(da, x, chunks, how):
+    """The source collection for data ``x`` in chunking ``chunks``, built in one of several ways."""
+    if how == "map_blocks":
+        return da.from_array(x, chunks=chunks).map_blocks(np.copy)          # a blockwise producer the store task can fuse with
+    if how == "rechunk":
+        return da.from_array(x, chunks=x.shape if x.ndim else ()).rechunk(chunks)
+    if how == "sliced" and x.ndim and x.shape[0] >= 1:
+        big = np.concatenate([x[:1], x], axis=0)                            # one more row in front, cut off lazily
+        c0 = (1,) + tuple(chunks[0])
+        return da.from_array(big, chunks=(c0,) + tuple(chunks[1:]))[1:]
+    return da.from_array(x, chunks=chunks)
+
+
+def _reset(t):
+    t.data[...] = 0 if t.sentinel is None else t.sentinel
+    t.count[...] = 0
+    t.events.clear()
+    t.reads = t.inside = t.max_inside = 0
+
+
 def _run_store(case, ctx):
     import dask
     import dask.array as da
@@ -272,25 +363,45 @@ def _run_store(case, ctx):
 
     srcs = case["srcs"]
     ctx.op("store:lock=%s:%s" % (case["lock"], case["sched"]))
-    feat = _feat(case)
-    datas, sources, targets, regions = [], [], [], []
+    feat0 = _feat(case)
+    datas, sources, targets, targs, regions = [], [], [], [], []
     for s in srcs:
         if s.get("same_as_first"):
             x, dx = datas[0], sources[0]
+        elif s.get("rechunk_of_first"):
+            x, dx = datas[0], sources[0].rechunk(A.chunks_of_desc(s["c"]))
         else:
             x = A.rand_data(s["seed"], s["shape"], s["dtype"])
-            dx = da.from_array(x, chunks=A.chunks_of_desc(s["c"]))
+            dx = _derive(da, x, A.chunks_of_desc(s["c"]), s.get("derive", "from_array"))
+            if s.get("derive", "from_array") != "from_array":
+                ctx.count("derived_sources")
         if s.get("shared_target"):
-            t = targets[0]
+            t, targ = targets[0], targs[0]
         else:
             tdt = s["dtype"]
             if s["wide"] and np.dtype(tdt).kind in "iu":
                 tdt = "float64"
             t = (ValueTokenTarget if s.get("value_token") else MonitoredTarget)(s["tshape"], tdt)
+            td = s.get("tdelayed")
+            if td == "obj":
+                targ = dask.delayed(t)
+            elif td == "notraverse":
+                targ = dask.delayed(t, traverse=False)
+            elif td == "call":
+                targ = dask.delayed(lambda t=t: t, pure=False)()
+            else:
+                targ = t
+            if td:
+                ctx.count("delayed_targets")
         datas.append(x)
         sources.append(dx)
         targets.append(t)
+        targs.append(targ)
         regions.append(_slices(s["region"]) if s["region"] is not None else None)
+    if any(tuple(dx.chunks) != tuple(A.chunks_of_desc(s["c"])) for dx, s in zip(sources, srcs)):
+        raise ValueError("harness: derived source has other chunks than described")
+    if len(srcs) >= 2 and len({tuple(dx.chunks) for dx in sources}) >= 2:
+        ctx.count("calls_with_differently_chunked_sources")
     ctx.nontrivial = any(A.has_split(dx.chunks) for dx in sources)
     lock = {"true": True, "false": False, "threading": threading.Lock(), "serializable": SerializableLock()}[case["lock"]]
     kw = {}
@@ -298,6 +409,14 @@ def _run_store(case, ctx):
         kw["scheduler"] = case["sched"]
         if case["sched"] == "threads":
             kw["num_workers"] = 4
+    if case.get("optimize_graph") is False:
+        kw["optimize_graph"] = False
+        ctx.count("optimize_graph_false")
+    skw = dict(kw)
+    ls = case.get("load_stored")
+    if ls is not None:
+        skw["load_stored"] = ls
+        ctx.count("load_stored_explicit")
     single = len(srcs) == 1 and case["single_form"]
     if all(r is None for r in regions):
         reg_arg = None
@@ -312,100 +431,140 @@ def _run_store(case, ctx):
     for t in targets:
         if not any(t is u for u in distinct_targets):
             distinct_targets.append(t)
+    # load_stored given explicitly: the mechanisms are features of their own
+    lsfeat = ""
+    if ls is True and case["compute"] and case["return_stored"]:
+        lsfeat = "load_stored=True&compute=True"
+    elif ls is False and not case["compute"] and case["return_stored"]:
+        lsfeat = "load_stored=False&compute=False"
 
     def written():
         return sum(int(t.count.sum()) for t in distinct_targets)
 
-    try:
-        with dask.config.set(cfg):
-            res = da.store(sources[0] if single else sources, targets[0] if single else targets, lock=lock, regions=reg_arg,
-                           compute=case["compute"], return_stored=case["return_stored"], **kw)
-            if not case["compute"]:
-                ctx.count("deferred_stores")
-                if written():
-                    ctx.violation("store:compute=False:%s:written-before-compute" % feat, "%d element writes before the later compute" % written())
-                if res is None:
-                    ctx.violation("store:compute=False:%s:returned-None" % feat, "nothing to compute later")
-                    return
-                later = dask.compute(res, **kw)[0]
-                if case["return_stored"]:
-                    loaded = later if isinstance(later, tuple) else (later,)
-            elif case["return_stored"]:
-                before = written()
-                rs = res if isinstance(res, tuple) else (res,)
-                expect_w = sum(int(x.size) for x in datas)
-                if before != expect_w:
-                    ctx.violation("store:return_stored&compute=True:%s:not-written-at-return" % feat,
-                                  "%d element writes at return, expected %d" % (before, expect_w))
-                loaded = dask.compute(*rs, **kw)
-            elif res is not None:
-                ctx.violation("store:%s:return-value" % feat, "compute=True, return_stored=False returned %r" % (type(res),))
-    except NotImplementedError as ex:
-        ctx.unsupported(str(ex))
+    def once(rnd):
+        feat = feat0 + ("&second-store-of-the-same-call" if rnd else "")
+        loaded = None
+        try:
+            with dask.config.set(cfg):
+                res = da.store(sources[0] if single else sources, targs[0] if single else targs, lock=lock, regions=reg_arg,
+                               compute=case["compute"], return_stored=case["return_stored"], **skw)
+                if not case["compute"]:
+                    ctx.count("deferred_stores")
+                    if written():
+                        ctx.violation("store:compute=False:%s:written-before-compute" % feat, "%d element writes before the later compute" % written())
+                    if res is None:
+                        ctx.violation("store:compute=False:%s:returned-None" % feat, "nothing to compute later")
+                        return False
+                    if lsfeat == "load_stored=False&compute=False":
+                        # the blocks of the returned arrays ARE the targets ("store will return the appropriate target for
+                        # each chunk that is stored"): compute them block by block, never assembled
+                        rs = res if isinstance(res, tuple) else (res,)
+                        blocks = dask.compute([list(r.to_delayed().ravel()) for r in rs], **kw)[0]
+                        ctx.count("load_stored_false_blocks_checked")
+                        for j, (bl, t) in enumerate(zip(blocks, targets)):
+                            if any(b is not t for b in bl):
+                                ctx.violation("store:return_stored&%s:%s:block-is-not-the-target" % (lsfeat, feat),
+                                              "source %d: blocks %s" % (j, [type(b).__name__ for b in bl][:4]))
+                    else:
+                        later = dask.compute(res, **kw)[0]
+                        if case["return_stored"]:
+                            loaded = later if isinstance(later, tuple) else (later,)
+                elif case["return_stored"]:
+                    before = written()
+                    rs = res if isinstance(res, tuple) else (res,)
+                    expect_w = sum(int(x.size) for x in datas)
+                    if before != expect_w:
+                        ctx.violation("store:return_stored&compute=True:%s:not-written-at-return" % feat,
+                                      "%d element writes at return, expected %d" % (before, expect_w))
+                    if lsfeat:
+                        try:
+                            loaded = dask.compute(*rs, **kw)
+                        except Exception as ex:  # noqa: BLE001
+                            ctx.violation("store:return_stored&%s:returned-arrays" % lsfeat, "computing the returned arrays raised %r" % (ex,))
+                            loaded = None
+                    else:
+                        loaded = dask.compute(*rs, **kw)
+                elif res is not None:
+                    ctx.violation("store:%s:return-value" % feat, "compute=True, return_stored=False returned %r" % (type(res),))
+        except NotImplementedError as ex:
+            ctx.unsupported(str(ex))
+            return False
+        except Exception as ex:  # noqa: BLE001
+            ctx.exception(ex, prefix="store:%s" % feat)
+            return False
+        # ---- returned arrays ---------------------------------------------------------------------------
+        if case["return_stored"] and loaded is not None:
+            ctx.count("return_stored_checked")
+            if len(loaded) != len(datas):
+                ctx.violation("store:return_stored:%s:number-of-results" % feat, "%d results for %d sources" % (len(loaded), len(datas)))
+            else:
+                for j, (lv, x, t) in enumerate(zip(loaded, datas, targets)):
+                    m = compare_arrays(lv, x.astype(t.dtype), exact=True)
+                    if m and lsfeat:
+                        # one mechanism whatever the symptom (shape / values): one label
+                        ctx.violation("store:return_stored&%s:returned-arrays" % lsfeat, "source %d: %s: %s" % (j, m[0], m[1]))
+                    elif m:
+                        ctx.violation("store:return_stored:%s:%s" % (_RK[srcs[j]["rk"]], m[0]), "source %d: %s" % (j, m[1]),
+                                      compute=case["compute"], variant=case["variant"])
+        # ---- write history -----------------------------------------------------------------------------
+        for t in distinct_targets:
+            ctx.count("targets_checked")
+            exp_count = np.zeros(t.shape, np.int32)
+            mine = [(x, r) for x, r, u in zip(datas, regions, targets) if u is t]
+            feat = [_RK[s_["rk"]] for s_, u in zip(srcs, targets) if u is t][0] + ("&two-sources-one-target" if len(mine) > 1 else "")
+            if any(s_.get("tdelayed") for s_, u in zip(srcs, targets) if u is t):
+                ctx.count("delayed_target_histories_checked")
+            for x, r in mine:
+                key = r if r is not None else tuple(slice(None) for _ in t.shape)
+                try:
+                    if exp_count[key].shape != x.shape:
+                        raise ValueError("harness: region %s selects %s for a source of shape %s" % (key, exp_count[key].shape, x.shape))
+                except IndexError as ex:
+                    raise ValueError("harness region: %s" % ex) from None
+                exp_count[key] += 1
+            if not np.array_equal(t.count, exp_count):
+                over = int(((t.count > exp_count)).sum())
+                under = int(((t.count < exp_count)).sum())
+                outside = int(((t.count > 0) & (exp_count == 0)).sum())
+                sym = "outside-region-written" if outside else ("written-more-than-once" if over else "not-written")
+                ctx.violation("store:%s:%s" % (feat, sym), "%d elements written too often, %d too rarely, %d outside the region; writes=%s"
+                              % (over, under, outside, [str(e[0]) for e in t.events][:6]), regions=[str(r) for _, r in mine],
+                              target_shape=t.shape, round=rnd)
+                continue
+            # values: replay the expected content
+            exp = np.zeros(t.shape, t.dtype) if t.sentinel is None else np.full(t.shape, t.sentinel, t.dtype)
+            for x, r in mine:
+                key = r if r is not None else tuple(slice(None) for _ in t.shape)
+                exp[key] = x
+            m = compare_arrays(t.data, exp, exact=True)
+            if m:
+                ctx.violation("store:%s:%s" % (feat, m[0]), m[1], regions=[str(r) for _, r in mine], round=rnd)
+            nw = len(t.events)
+            if nw >= 2:
+                ctx.count("targets_with_several_writes")
+                threads = len({e[2] for e in t.events})
+                if threads >= 2:
+                    ctx.count("targets_written_by_several_threads")
+                if case["lock"] != "false":
+                    ctx.count("locked_histories_checked")
+                    if t.max_inside > 1:
+                        ctx.violation("store:lock=%s:%s:overlapping-writes" % (case["lock"], case["sched"]),
+                                      "%d writes inside __setitem__ at once; overlapping pairs %s" % (t.max_inside, t.overlaps()[:3]))
+                elif t.max_inside > 1:
+                    ctx.count("overlap_seen_without_lock")
+        return True
+
+    if not once(0):
         return
-    except Exception as ex:  # noqa: BLE001
-        ctx.exception(ex, prefix="store:%s" % feat)
-        return
-    # ---- returned arrays ---------------------------------------------------------------------------
-    if case["return_stored"]:
-        ctx.count("return_stored_checked")
-        if len(loaded) != len(datas):
-            ctx.violation("store:return_stored:%s:number-of-results" % feat, "%d results for %d sources" % (len(loaded), len(datas)))
-        else:
-            for j, (lv, x, t) in enumerate(zip(loaded, datas, targets)):
-                m = compare_arrays(lv, x.astype(t.dtype), exact=True)
-                if m:
-                    ctx.violation("store:return_stored:%s:%s" % (_RK[srcs[j]["rk"]], m[0]), "source %d: %s" % (j, m[1]),
-                                  compute=case["compute"], variant=case["variant"])
-    # ---- write history -----------------------------------------------------------------------------
-    for t in distinct_targets:
-        ctx.count("targets_checked")
-        exp_count = np.zeros(t.shape, np.int32)
-        exp_data = t.data.copy()
-        mine = [(x, r) for x, r, u in zip(datas, regions, targets) if u is t]
-        feat = [_RK[s_["rk"]] for s_, u in zip(srcs, targets) if u is t][0] + ("&two-sources-one-target" if len(mine) > 1 else "")
-        for x, r in mine:
-            key = r if r is not None else tuple(slice(None) for _ in t.shape)
-            try:
-                if exp_count[key].shape != x.shape:
-                    raise ValueError("harness: region %s selects %s for a source of shape %s" % (key, exp_count[key].shape, x.shape))
-            except IndexError as ex:
-                raise ValueError("harness region: %s" % ex) from None
-            exp_count[key] += 1
-        if not np.array_equal(t.count, exp_count):
-            over = int(((t.count > exp_count)).sum())
-            under = int(((t.count < exp_count)).sum())
-            outside = int(((t.count > 0) & (exp_count == 0)).sum())
-            sym = "outside-region-written" if outside else ("written-more-than-once" if over else "not-written")
-            ctx.violation("store:%s:%s" % (feat, sym), "%d elements written too often, %d too rarely, %d outside the region; writes=%s"
-                          % (over, under, outside, [str(e[0]) for e in t.events][:6]), regions=[str(r) for _, r in mine],
-                          target_shape=t.shape)
-            continue
-        # values: replay the expected content
-        exp = np.zeros(t.shape, t.dtype) if t.sentinel is None else np.full(t.shape, t.sentinel, t.dtype)
-        for x, r in mine:
-            key = r if r is not None else tuple(slice(None) for _ in t.shape)
-            exp[key] = x
-        m = compare_arrays(t.data, exp, exact=True)
-        if m:
-            ctx.violation("store:%s:%s" % (feat, m[0]), m[1], regions=[str(r) for _, r in mine])
-        nw = len(t.events)
-        if nw >= 2:
-            ctx.count("targets_with_several_writes")
-            threads = len({e[2] for e in t.events})
-            if threads >= 2:
-                ctx.count("targets_written_by_several_threads")
-            if case["lock"] != "false":
-                ctx.count("locked_histories_checked")
-                if t.max_inside > 1:
-                    ctx.violation("store:lock=%s:%s:overlapping-writes" % (case["lock"], case["sched"]),
-                                  "%d writes inside __setitem__ at once; overlapping pairs %s" % (t.max_inside, t.overlaps()[:3]))
-            elif t.max_inside > 1:
-                ctx.count("overlap_seen_without_lock")
-    del exp_data
     ctx.distinct("store_config", (case["lock"], case["compute"], case["return_stored"], case["sched"], case["sched_how"], case["variant"]))
     ctx.sample = {"sources": [(s["shape"], s["c"]) for s in srcs][:2], "regions": [str(r) for r in regions][:2], "lock": case["lock"],
                   "writes": [len(t.events) for t in distinct_targets], "max_concurrent": [t.max_inside for t in distinct_targets]}
+    if case.get("again"):
+        # STATE: the very same call once more on the same sources and (reset) targets must write everything again
+        for t in distinct_targets:
+            _reset(t)
+        if once(1):
+            ctx.count("stored_again")
 
 
 def _run_npy(case, ctx):
@@ -414,12 +573,20 @@ def _run_npy(case, ctx):
     ctx.op("npy_stack")
     x = A.rand_data(case["seed"], case["shape"], case["dtype"])
     c = A.chunks_of_desc(case["c"])
-    dx = da.from_array(x, chunks=c)
+    dx = _derive(da, x, c, case.get("derive", "from_array"))
+    if tuple(dx.chunks) != tuple(c):
+        raise ValueError("harness: derived source has other chunks than described")
     axis = case["axis"]
+    axis_arg = axis - x.ndim if case.get("axis_neg") else axis
     ctx.nontrivial = A.has_split(c)
     feat = "axis-split" if len(c[axis]) > 1 else "axis-one-chunk"
     if 0 in case["shape"]:
         feat += "&zero-length"
+    if case.get("axis_neg"):
+        feat += "&negative-axis"
+    predir = case.get("predir", "new")
+    if predir == "overwrite":
+        feat += "&directory-holds-an-older-stack"
     d = tempfile.mkdtemp(prefix="vf-c29-")
     try:
         path = os.path.join(d, "stack")
@@ -427,7 +594,15 @@ def _run_npy(case, ctx):
             import dask
 
             with dask.config.set(scheduler=case["sched"]):
-                da.to_npy_stack(path, dx, axis=axis)
+                if predir == "exists":
+                    os.mkdir(path)
+                    ctx.count("npy_existing_dir")
+                elif predir == "overwrite":
+                    # STATE: the directory already holds a stack of other data in another chunking (possibly more files)
+                    xb = A.rand_data(case["seed_before"], case["shape"], case["dtype"])
+                    da.to_npy_stack(path, da.from_array(xb, chunks=A.chunks_of_desc(case["c_before"])), axis=axis)
+                    ctx.count("npy_overwrites")
+                da.to_npy_stack(path, dx, axis=axis_arg)
                 y = da.from_npy_stack(path, mmap_mode=case["mmap"])
                 v = y.compute()
         except NotImplementedError as ex:
@@ -437,17 +612,21 @@ def _run_npy(case, ctx):
             ctx.exception(ex, prefix="npy_stack:%s" % feat)
             return
         ctx.count("npy_roundtrips")
+        if case.get("axis_neg"):
+            ctx.count("npy_negative_axis")
         m = compare_arrays(np.asarray(v), x, exact=True)
         if m:
             ctx.violation("npy_stack:%s:%s" % (feat, m[0]), m[1])
         if y.dtype != x.dtype:
             ctx.violation("npy_stack:%s:lazy-dtype" % feat, "lazy dtype %s, source %s" % (y.dtype, x.dtype))
         if tuple(y.chunks[axis]) != tuple(dx.chunks[axis]):
-            ctx.violation("npy_stack:%s:chunks-along-axis" % feat, "chunks %s, source %s" % (y.chunks[axis], dx.chunks[axis]))
+            # a negative axis is a mechanism of its own (one label whatever else the case has)
+            ctx.violation("npy_stack:%s:chunks-along-axis" % ("negative-axis" if case.get("axis_neg") else feat),
+                          "chunks %s, source %s" % (y.chunks[axis], dx.chunks[axis]))
         if tuple(y.shape) != x.shape:
             ctx.violation("npy_stack:%s:lazy-shape" % feat, "lazy shape %s, source %s" % (y.shape, x.shape))
         nfiles = len([f for f in os.listdir(path) if f.endswith(".npy")])
-        ctx.sample = {"shape": case["shape"], "axis": axis, "chunks": str(y.chunks), "files": nfiles}
+        ctx.sample = {"shape": case["shape"], "axis": axis_arg, "chunks": str(y.chunks), "files": nfiles}
         del y, v
     finally:
         shutil.rmtree(d, ignore_errors=True)
